@@ -682,6 +682,8 @@ pub struct Config {
     /// mirror one in `cross_every` paths to cvc5 (0 = never)
     pub cross_every: u64,
     pub split_target: usize,
+    /// kinds that are listed as known findings: they never stop a stop-on-first-violation run
+    pub known_kinds: Vec<String>,
 }
 
 #[derive(Clone, Debug)]
@@ -864,7 +866,7 @@ impl<'a> Worker<'a> {
                     oplog: res.oplog[..cand.at_op.min(res.oplog.len())].to_vec(),
                     count: 1,
                 };
-                if std::env::var("SYMX_STOP_ON_VIOLATION").is_ok() {
+                if std::env::var("SYMX_STOP_ON_VIOLATION").is_ok() && !self.cfg.known_kinds.contains(&f.kind) {
                     // (seed regression: one confirmed violation is enough)
                     self.stop.store(true, Ordering::Relaxed);
                 }
